@@ -1131,6 +1131,72 @@ def gen_c18_reject_case(seed, idx):
 
 
 # ---------------------------------------------------------------- C14: the item is re-emitted (through the real entry points)
+def gen_macro_value_program(seed, start, count):
+    """Items, helper-attribute arguments and impl bodies that come out of `macro_rules!` macros with `$e:expr` / `$l:literal`
+    / `$p:path` / `$t:ty` / `$q:pat` fragments, observed by *value*: an invisible group that is lost changes what is computed
+    (`$e * 2` with `$e = 1 + 2` is 6, not 5) without any diagnostic (F36, F38)."""
+    rng = random.Random(seed * 5000011 + start)
+    src = ('#![allow(dead_code, unused_imports, unused_variables, unused_parens, non_snake_case)]\n'
+           'use derive_ex::{derive_ex, Ex};\npub const K8: i8 = 7;\npub fn two() -> usize { 2 }\n'
+           'pub trait Tr: ::core::fmt::Debug { fn get(&self) -> u8; }\nimpl Tr for u8 { fn get(&self) -> u8 { *self } }\n')
+    cases = []
+    for idx in range(start, start + count):
+        mod = f'c{idx}'
+        kind = rng.choice(['default_expr', 'by_expr', 'impl_body', 'type_frag'])
+        a, b = rng.randrange(1, 5), rng.randrange(1, 5)
+        e_arg = rng.choice([f'{a} + {b}', f'{a} + {b}', f'{a + b}', f'({a} + {b})', f'{a} << 1 | {b}'])
+        e_val = eval(e_arg)
+        derive = rng.random() < 0.4
+        if kind == 'default_expr':
+            head = '#[derive(Ex)] #[derive_ex(Default, Debug, Clone)]' if derive else '#[derive_ex(Default, Debug, Clone)]'
+            decl = (f'macro_rules! mk {{ ($e:expr, $l:literal, $p:path) => {{ {head} pub struct X {{ #[default($e * 2)] pub a: i32, '
+                    f'#[default($l)] pub s: String, #[default($p)] pub k: i64, pub arr: [u8; $e * 2], #[default(-$e)] pub m: i32 }} }} }}\n'
+                    f' mk!({e_arg}, "x", K8);')
+            check = (f'  let x = X::default();\n'
+                     f'  n += 1; if x.a != ({e_arg}) * 2 {{ println!("{mod} FAIL #[default($e * 2)] with $e = {e_arg} gave {{}}", x.a); }}\n'
+                     f'  n += 1; if x.m != -({e_arg}) {{ println!("{mod} FAIL #[default(-$e)] gave {{}}", x.m); }}\n'
+                     f'  n += 1; if x.s != "x" || x.k != 7 {{ println!("{mod} FAIL default from a $l:literal / $p:path fragment"); }}\n'
+                     f'  n += 1; if x.arr.len() != (({e_arg}) * 2) as usize {{ println!("{mod} FAIL [u8; $e * 2] has {{}} elements", x.arr.len()); }}\n'
+                     f'  n += 1; if x.clone().arr.len() != x.arr.len() {{ println!("{mod} FAIL clone"); }}\n')
+            traits = ['Default', 'Debug', 'Clone']
+        elif kind == 'by_expr':
+            head = '#[derive(Ex)] #[derive_ex(PartialEq, Debug)]' if derive else '#[derive_ex(PartialEq, Debug)]'
+            m = e_val if e_val > 1 else 3
+            m_arg = e_arg if e_val > 1 else '1 + 2'
+            decl = (f'macro_rules! mk {{ ($m:expr) => {{ {head} pub struct X(#[eq(by = |a: &i32, b: &i32| a % $m == b % $m)] pub i32, pub [u8; $m]); }} }}\n'
+                    f' mk!({m_arg});')
+            check = (f'  n += 1; if X(1, [0; {m}]) != X(1 + {m}, [0; {m}]) {{ println!("{mod} FAIL by = |a, b| a % $m == b % $m with $m = {m_arg}"); }}\n'
+                     f'  n += 1; if X(0, [0; {m}]) == X(1, [0; {m}]) {{ println!("{mod} FAIL by: 0 and 1 equal modulo {m}"); }}\n')
+            traits = ['PartialEq', 'Debug']
+        elif kind == 'impl_body':
+            tr = rng.choice(['AddAssign', 'Add, AddAssign'])
+            pat = rng.choice(['1 | 2', '1..=2'])
+            decl = ('#[derive(Clone, Copy, Debug, PartialEq)] pub struct X(pub i32);\n'
+                    f' macro_rules! mk {{ ($e:expr, $q:pat, $k:ident, $s:stmt) => {{ #[derive_ex({tr})] impl ::core::ops::Add<i32> for X {{ type Output = X; '
+                    f'fn add(self, r: i32) -> X {{ $s; let w = match r {{ n @ $q => n * 10, n => n }}; X(self.0 + w * $e + $k) }} }} }} }}\n'
+                    f' mk!({e_arg}, {pat}, k, let k = 100);')
+            check = (f'  n += 1; if (X(1) + 3).0 != 1 + 3 * ({e_arg}) + 100 {{ println!("{mod} FAIL the user\'s own impl changed its meaning: {{}}", (X(1) + 3).0); }}\n'
+                     f'  n += 1; if (X(1) + 2).0 != 1 + 20 * ({e_arg}) + 100 {{ println!("{mod} FAIL n @ $q with $q = {pat}: {{}}", (X(1) + 2).0); }}\n'
+                     f'  n += 1; let mut y = X(1); y += 3; if y != X(1) + 3 {{ println!("{mod} FAIL += differs from +"); }}\n')
+            traits = [t.strip() for t in tr.split(',')]
+        else:
+            head = '#[derive(Ex)] #[derive_ex(Deref, Debug)]' if derive else '#[derive_ex(Deref, Debug)]'
+            t_arg = rng.choice(['dyn Tr + Send', 'dyn Tr', 'u8'])
+            decl = (f'macro_rules! mk {{ ($t:ty, $n:expr) => {{ {head} pub struct X<\'a>(pub &\'a $t); '
+                    f'#[derive_ex(Clone, Debug, PartialEq)] pub struct Y(pub [u8; $n + 1], pub Option<[u8; $n * 2]>); }} }}\n'
+                    f' mk!({t_arg}, {e_arg});')
+            check = (f'  static V: u8 = 9; let x = X(&V);\n'
+                     f'  n += 1; if x.get() != 9 {{ println!("{mod} FAIL deref through a $t:ty fragment"); }}\n'
+                     f'  n += 1; let y = Y([0; ({e_arg}) + 1], None); if y.clone() != y || y.0.len() != (({e_arg}) + 1) as usize {{ println!("{mod} FAIL array lengths"); }}\n'
+                     f'  n += 1; if ::core::mem::size_of::<Y>() != (({e_arg}) + 1 + ({e_arg}) * 2 + 1) as usize {{ println!("{mod} FAIL size {{}}", ::core::mem::size_of::<Y>()); }}\n')
+            traits = ['Deref', 'Debug', 'Clone', 'PartialEq']
+        body = f'pub mod {mod} {{ use super::*;\n {decl}\n pub fn run() {{ let mut n = 0u32;\n{check}  println!("{mod} ok {{}}", n); }}\n}}\n'
+        src += body
+        cases.append(dict(mod=mod, item=decl, traits=traits, shape=kind + ('/derive' if derive else '/attr'), raw=False))
+    src += 'fn main() { ' + ' '.join(f"{c['mod']}::run();" for c in cases) + ' }\n'
+    return src, cases
+
+
 C14_PRELUDE = '''#![allow(dead_code, unused_imports, unused_variables, non_snake_case)]
 use derive_ex::{derive_ex, Ex};
 '''
